@@ -10,7 +10,7 @@ core.register("C08", "Props.C08", "theories/Props/C08.vo",
               ["C08_removed_after_durable", "C08_oldest_first", "C08_liveness", "C08_pop_obsolete_spec_partial",
                "C08_only_dead_partial"])
 core.register("C14", "Props.C14", "theories/Props/C14.vo", ["C14_quiescent", "C14_drain_terminates"])
-core.register("C03", "Props.C03", "theories/Props/C03.vo", ["C03_prefix_no_purge_partial", "C03_nonvacuous"])
+core.register("C03", "Props.C03", "theories/Props/C03.vo", ["C03_prefix", "C03_nonvacuous", "C03_nonvacuous_purged"])
 core.register("C05", "Props.C05", "theories/Props/C05.vo",
               ["C05_refuted_gap", "C05_recovers_outside_known", "C05_process_crash_is_image"])
 core.register("C07", "Props.C07", "theories/Props/C07.vo",
@@ -518,7 +518,10 @@ def run_C08(ctx):
                 continue
             ids = sorted(files)
             im = [(i, files[i][: synced.get(i, 0)]) for i in ids]
-            imgs.append(p_recover.img_case(sel_cfgs[ci], im, IMG_AFTER))
+            # opened under a large cache: the question is what the files hold, not whether a
+            # read survives cache pressure (C07, finding F2, is about that)
+            big = " ".join(["100000", str(1 << 30)] + sel_cfgs[ci].split()[2:])
+            imgs.append(p_recover.img_case(big, im, IMG_AFTER))
             meta.append(dict(trace=ci, at_event=ei, acked=acked, issued=issued))
     if imgs:
         impl = C.run_impl(imgs, ctx.wd, "c08img")
